@@ -392,6 +392,16 @@ EncGlyf(recs, ch) ==
    co |-> Flat([k \in DOMAIN E |-> E[k].co]), bm |-> BitmapBytes([k \in DOMAIN E |-> E[k].bit]),
    bb |-> Flat([k \in DOMAIN E |-> E[k].bb]), ins |-> Flat([k \in DOMAIN E |-> E[k].ins])]
 
+\* overlapSimpleBitmap (optionFlags bit 0): one bit per glyph, set when the first flag of a simple glyph of the
+\* source carries OVERLAP_SIMPLE; packed like the bboxBitmap (glyph 0 = most significant bit of the first byte) but
+\* padded to whole BYTES only: floor((numGlyphs + 7) / 8) bytes - NOT to 32-bit words.  It follows the instruction
+\* stream and is not counted by any of the seven stream sizes (only by the directory's transformLength).
+OverlapLen(n) == (n + 7) \div 8
+OverlapBytes(bits) ==
+  [k \in 1 .. OverlapLen(Len(bits)) |->
+     LET B(j) == IF 8 * (k - 1) + j + 1 <= Len(bits) THEN bits[8 * (k - 1) + j + 1] ELSE 0 IN
+     128 * B(0) + 64 * B(1) + 32 * B(2) + 16 * B(3) + 8 * B(4) + 4 * B(5) + 2 * B(6) + B(7)]
+
 \* table layout: reserved u16, optionFlags u16, numGlyphs, indexFormat, seven u32 sizes (the
 \* bbox size covers bitmap + bbox values), the streams; an optional overlapSimpleBitmap follows
 \* when optionFlags bit 0 is set (decoders that do not use it ignore it).
